@@ -294,7 +294,15 @@ fn bool_exact<const L: usize>(lit: &[u8; L], lower_value: Option<bool>) {
             std::mem::forget(e);
         }
     }
-    kani::cover!(!all_lower, "some letter upper-cased");
+    let mut has_letter = false;
+    let mut i = 0;
+    while i < L {
+        if lit[i] >= b'a' && lit[i] <= b'z' {
+            has_letter = true;
+        }
+        i += 1;
+    }
+    kani::cover!(!all_lower || !has_letter, "some letter upper-cased (when the word has letters)");
     kani::cover!(all_lower, "all lower case");
     std::mem::forget(cmd);
 }
